@@ -164,6 +164,7 @@ Section Protocol.
     - split; [repeat split; cbn; auto; try (apply map_upd_pc; auto); apply upd_length|cbn; auto].
     - split; [repeat split; cbn; auto; try (apply map_upd_pc; auto); apply upd_length|cbn; auto].
     - split; [repeat split; cbn; auto; try (apply map_upd_pc; auto); apply upd_length|cbn; auto].
+    - split; [repeat split; cbn; auto; try (apply map_upd_pc; auto); apply upd_length|cbn; auto].
     - split; [repeat split; cbn; auto; apply own_part_del|cbn; auto].
   Qed.
 
@@ -256,6 +257,19 @@ Section Protocol.
     intros E. exact (i_locked _ _ _ I Hl E Hf).
   Qed.
 
+  (* stopServer reaches the live server, however many reloads came before: with an un-shut server the once is
+     armed and r.server points at it, so the skip path is closed and Shutdown is called on exactly that server *)
+  Theorem stop_reaches_live_server c0 ls s sid sv :
+    no_foreign ls -> run step (init c0) ls = Some s ->
+    crashed s = false -> kpc s = KStopPending ->
+    nth_error (servers s) sid = Some sv -> s_shut sv = false ->
+    step s LStopSkip = None /\ step s (LStopCallS sid) <> None.
+  Proof.
+    intros Hn Hr Hc Hk Hsv Hsh. pose proof (inv_reachable stop_locked validated mux_ok c0 ls s Hn Hr) as I.
+    destruct (i_live _ _ _ I sid) as [Es Eo]; [exists sv; auto|].
+    unfold HttpServer.step, step_core. rewrite Hc, Hk, Es, Eo, Nat.eqb_refl. split; [reflexivity|discriminate].
+  Qed.
+
   (* once Run has returned no server created by this runner is bound *)
   Theorem released c0 ls s :
     no_foreign ls -> run step (init c0) ls = Some s ->
@@ -273,7 +287,7 @@ Section Protocol.
   Definition progress_label (l : label) : bool :=
     match l with
     | LRunCall | LStopCall _ | LCancel | LReloadCall _ | LForeignBind _ | LForeignFree _
-    | LObsState _ | LObsDial _ _ | LObsServe _ _ | LQuiesce | LRunRet _ | LStopRet _ | LReloadRet _
+    | LObsState _ | LObsDial _ _ | LObsServe _ _ | LObsCensus _ | LQuiesce | LRunRet _ | LStopRet _ | LReloadRet _
     | LLasClosed _ => false
     | _ => true
     end.
